@@ -128,7 +128,12 @@ CursorB(t, dl) == DownTo(t, dl \div G - 1)
 (* ------------------------------- the walk ------------------------------------ *)
 Members(t) == ts[t].sel                                    \* selected resources (primaries or alternatives)
 OffT(t, r, s) == IF ts[t].done = 0 /\ s = ts[t].bslot THEN ts[t].off * R(r).effN ELSE 0    \* D5
-Base(t, r, s) == Max2(Used(r, s), OffT(t, r, s))
+\* A team works the same instants (D3): what the busiest member has used of the slot, or the dependency
+\* offset, is the base of every member.  TeamBaseL is in 1/L second; BaseOf converts to ticks of r.
+TeamBaseL(t, s) == MaxOf({Used(m, s) * R(m).lmul : m \in SeqSet(Members(t))}
+                         \cup {IF ts[t].done = 0 /\ s = ts[t].bslot THEN ts[t].off * P.L ELSE 0})
+BaseOf(r, bl) == bl \div R(r).lmul
+Base(t, r, s) == BaseOf(r, TeamBaseL(t, s))
 MemberFree(t, r, s) == OnShift(r, s) /\ Cap(r) - Base(t, r, s) > 0 /\ LimitsOk(t, r, s)
 Bookable(t, s) == Len(Members(t)) > 0 /\ \A i \in 1..Len(Members(t)) : MemberFree(t, Members(t)[i], s)
 IsFirstBookable(t, s) ==
@@ -171,16 +176,19 @@ P04Of(t, st, en) ==
             st >= (IF d.onstart THEN ts[d.p].start ELSE ts[d.p].end) + d.gap
    /\ \A u \in {v \in Succs(t) : ts[v].sched /\ ~Pinned(v) /\ ts[v].fwd = Fwd(t)} :   \* successors placed before t (backward mode)
          \A d \in {x \in SeqSet(T(u).deps) : x.p = t /\ ~x.onstart} : ts[u].start >= en + d.gap
-\* C08 (forward) for a single unlimited resource: at Finish every on-shift slot between the bound slot and the
-\* last one is full -- the task took whatever was free when it passed
+\* C08 (forward) for a single unlimited resource: at Finish (no other task has moved since t started) every
+\* on-shift slot between the bound slot and the last one has no free tick left -- t took whatever was free
+\* when it passed.  Lead-in reservations of other tasks count as used (D6).
 Unlimited(t, r) == LimKeys(t, r, 0) = {}
 Worked(r, s) == SumU(Usage(r, s))
 P08F(t, r, lastSlot) == (Len(Members(t)) = 1 /\ Unlimited(t, r) /\ T(t).pin < 0 /\ Plain(t)) =>
-   \A s \in ts[t].bslot..(lastSlot - 1) :
-       OnShift(r, s) => IF s = ts[t].bslot THEN Used(r, s) = Cap(r) ELSE Worked(r, s) = Cap(r)
+   \A s \in ts[t].bslot..(lastSlot - 1) : OnShift(r, s) => Used(r, s) = Cap(r)
 \* C08 (backward): between the last booked slot and the deadline slot everything on shift is full
 P08B(t, r, firstSlot) == (Len(Members(t)) = 1 /\ Unlimited(t, r) /\ Plain(t)) =>
-   \A s \in (firstSlot + 1)..(ts[t].dl \div G - 1) : OnShift(r, s) => Worked(r, s) = Cap(r)
+   \A s \in (firstSlot + 1)..(ts[t].dl \div G - 1) : OnShift(r, s) => Used(r, s) = Cap(r)
+\* C08: the only idle time a task may put in front of its work is the part of the bound's slot before the bound
+LeadInOk(t, r, s, base) == \/ \E m \in SeqSet(Members(t)) : base * R(m).effN <= Used(m, s) * R(r).effN
+                           \/ (Fwd(t) /\ s = ts[t].bslot /\ base <= ts[t].off * R(r).effN)
 P06Of(t, st, en, effort) == st <= en /\ (effort > 0 => st < en)
 \* tight: the reported start lies in the earliest booked slot, the end in (the closure of) the latest one
 P06Tight(t, st, en, lo, hi) == st \div G = lo /\ (en - 1) \div G = hi
